@@ -422,6 +422,7 @@ func genLimits(g *core.Gen, r *core.Rand, keys []keyT) []caseSpec {
 	// satisfies the lock (so that only the operand rules decide)
 	for _, lockOp := range []byte{0xb1, 0xb2} {
 		operands := [][]byte{{0x01}, {0x01, 0x00}, {0x00, 0x00, 0x00, 0x80, 0x00}, {0x00, 0x00, 0x00, 0x80, 0x00, 0x00},
+			{0x0a, 0x00, 0x00, 0x80, 0x00}, {0x04}, {0x07}, {0x08}, {0x00, 0x65, 0xcd, 0x1d}, {0xff, 0x64, 0xcd, 0x1d}, {0x07, 0x00, 0x40, 0x00}, {0x08, 0x00, 0x40, 0x00},
 			{0x05, 0x00, 0x00, 0x80, 0x00}, {0x81}, {0x01, 0x00, 0x00, 0x00, 0x00}, {0xff, 0xff, 0xff, 0xff, 0x7f}, {}}
 		for _, opnd := range operands {
 			for _, fl := range []txscript.ScriptFlags{txscript.StandardVerifyFlags, consensusAll, txscript.ScriptBip16} {
